@@ -199,6 +199,15 @@ def reference_cascade(leaves, fmt, mode, start):
 
 def tiles_match(real, ref, fmt, levels, maxabs):
     real = np.asarray(real)
+    # colour tiles: an opaque RGBA tile and the RGB tile with the same colours are the same picture
+    if real.ndim == 3 and ref.ndim == 3 and real.shape[:2] == ref.shape[:2] and {real.shape[2], ref.shape[2]} == {3, 4} \
+            and real.dtype == np.uint8 and ref.dtype == np.uint8:
+        four, three = (real, ref) if real.shape[2] == 4 else (ref, real)
+        if np.all(four[..., 3] == 255):
+            if real.shape[2] == 4:
+                real = real[..., :3]
+            else:
+                ref = ref[..., :3]
     if real.shape != ref.shape:
         return "shape %s, expected %s" % (real.shape, ref.shape)
     if ref.dtype.kind == "f":
